@@ -235,5 +235,9 @@ func (e *Env) Load(ts []Tuple) error {
 
 // NewEnvFor builds the environment a property needs.
 func NewEnvFor(t testing.TB, prop, mode string) *Env {
+	switch prop {
+	case "C06":
+		return NewEnvMT(t)
+	}
 	return NewEnv(t, EnvOpts{})
 }
